@@ -230,7 +230,7 @@ func runC05(c *Ctx) {
 			r.hist("model_end_" + cl)
 			// decidable hypotheses of the C05 run theorems on this history: topo (⇒ Acyclic) must hold;
 			// benign (no chunk count redefined while re-attaching) is the extra hypothesis of
-			// restart_completes_same_completion_set: histories without it are counted, not covered by it
+			// restart_completes_same_completion_set_partial: histories without it are counted, not covered by it
 			if v := schedHypNote(detail, "topo"); v == "no" {
 				r.violate(Violation{Kind: "correspondence", Key: "C05:hypothesis-fails-on-real-run:topo",
 					What:   "the graph of a real run is not topologically numbered (hypothesis Acyclic of restart_completes): " + detail,
@@ -238,6 +238,24 @@ func runC05(c *Ctx) {
 					Broken: "hypotheses of Props.C05.restart_completes hold on real runs"})
 			}
 			r.hist("hyp_benign_" + schedHypNote(detail, "benign"))
+			// AliveInv (every submitted, unfinished job is alive: each job that died has been reset) is the
+			// hypothesis of restart_completes about the state after the last interruption; the driver
+			// evaluates its decidable form each time loading ends: it must hold on a real run that completed
+			// (the real mrp resets every job that died).  A Finished end state must be quiescent.
+			r.hist("hyp_alive_" + schedHypNote(detail, "alive"))
+			r.hist("end_quiescent_" + schedHypNote(detail, "quiescent"))
+			if schedHypNote(detail, "alive") == "no" {
+				r.violate(Violation{Kind: "correspondence", Key: "C05:hypothesis-fails-on-real-run:alive",
+					What:   "after re-attaching, a submitted unfinished job is dead and was not reset (hypothesis AliveInv of restart_completes), yet the real run completed: " + detail,
+					Input:  map[string]interface{}{"program": cs.prog.Src, "crash_at": cs.spec.CrashAt, "seed": cs.spec.Seed, "fullreset": cs.spec.FullReset, "trace": res.Trace},
+					Broken: "hypotheses of Props.C05.restart_completes hold on real runs"})
+			}
+			if end == "finished" && schedHypNote(detail, "quiescent") == "no" {
+				r.violate(Violation{Kind: "correspondence", Key: "C05:finished-not-quiescent",
+					What:   "the model's end state of a completed real run is Finished but some scheduler/job event is still enabled: " + detail,
+					Input:  map[string]interface{}{"program": cs.prog.Src, "crash_at": cs.spec.CrashAt, "seed": cs.spec.Seed, "fullreset": cs.spec.FullReset, "trace": res.Trace},
+					Broken: "the end of a completed real run is a maximal run of the model (hypothesis of Props.C03.maximal_run_complete)"})
+			}
 			if end != "finished" {
 				r.violate(Violation{Kind: "correspondence", Key: "C05:model-not-finished:" + cl,
 					What:   "the restarted pipestance completed but the model's end state is not finished: " + detail,
@@ -281,7 +299,7 @@ func runC06(c *Ctx) {
 	n := 40
 	perProg := 6
 	if c.Thorough {
-		n = 100
+		n = 64 // (100 took > 10 min on a loaded machine)
 		perProg = 0
 	}
 	progs := rtPrograms(c, n/2, GenOpts{})
